@@ -55,6 +55,9 @@ def gen_pair(rng):
             pa = [(0, rng.choice([F(0), F(1, 2)])), (1, rng.choice([F(0), F(-1)]))]
             if noise:
                 ks |= {k for k in NOISE_KEYS if (i + k) % 2}
+                # modifier keys that no remaining binding requires (Shift and Alt belong to the deleted contexts) are
+                # unbound activity like any other key
+                ks |= {k for k in (101, 105) if (i + k) % 3 == 0}
                 mb = mb + [2]
                 pb = pb + [3]
                 pa = pa + [(3, F(1, 4))]
@@ -85,7 +88,7 @@ STAGES = [dict(name='pairs', mode='app', coq='Check.C17c', cases=cases, nontrivi
                exhaustive={'thorough': False, 'quick': False},
                rule='random configurations of 2-5 context types split into a kept set R and a deleted set D whose bound inputs are disjoint (different keys, different required modifier keys, different '
                     'mouse and gamepad inputs), interleaved in priority, with consuming actions, built-in and scripted conditions and modifiers, 1-2 entities, a component op or rebuild in the middle; three runs '
-                    'per case: the full configuration, the configuration with D deleted and with extra activity on keys / a mouse button / gamepad inputs that nobody binds, and the full configuration again; all cases are run a second time in fresh processes and the traces compared byte by byte. '
+                    'per case: the full configuration, the configuration with D deleted and with extra activity on keys, modifier keys, a mouse button and gamepad inputs that nobody binds, and the full configuration again; all cases are run a second time in fresh processes and the traces compared byte by byte. '
                     'non-trivial = some action fires; distinct = distinct case text')]
 CLAUSES = {2: 'main-segment events of the kept contexts differ when the disjoint contexts are deleted / unbound inputs are active', 3: 'later events of the kept contexts differ', 4: 'the invocation log (reads, values, results) of the kept contexts differs',
            5: 'polled states, values or durations of the kept contexts differ', 6: 'the registry lookup of the kept contexts differs', 7: 'instances of the kept contexts were built differently', 9: 'traces of different length', 10: 'panic flag differs',
